@@ -76,7 +76,10 @@ def mk_stream(cases, check_fn=None):
 def streams(tier, seed):
     rng = lib.Rng(f"C01-{seed}")
     n = 160 if tier == "quick" else 3000
-    return [mk_stream(lib.load_corpus(PROP, "hier-compile") + gen_cases(rng, n, 3 if tier == "quick" else 4))]
+    md = 3 if tier == "quick" else 4
+    # two thirds general hierarchies, one third wiring-heavy ones (four children, fan-in, children listed in any order)
+    cases = gen_cases(rng, n - n // 3, md) + gen_cases(rng, n // 3, md, max_children=4, p_shuffle=1.0, p_rep=0.1, p_through=0.25)
+    return [mk_stream(lib.load_corpus(PROP, "hier-compile") + cases)]
 
 
 def replay_streams(payload):
